@@ -683,6 +683,31 @@ if not m:
     die("InstructionPointerUpdate::from_instruction: the rip_update closure changed:\n" + ipu[:600])
 ip_null = bexpr(m.group(1), {"address": ("int", "address")}, "rip_update null flag")
 
+# ------------------------------------------------------------------ MinidumpMemoryInfo::is_readable / is_writable / is_executable
+fmtrs = rd("minidump-common/src/format.rs")
+mpb = fn_body(fmtrs, r"pub struct MemoryProtection: u32\s*\{", "bitflags MemoryProtection")
+prot_bits = {n: int(v, 0) for n, v in re.findall(r"const (\w+)\s*=\s*(0x[0-9a-fA-F]+|\d+);", mpb)}
+if not prot_bits:
+    die("MemoryProtection: no flags found")
+mi_impl = fn_body(mdrs, r"impl(?:<'a>)? MinidumpMemoryInfo<'(?:a|_)>\s*\{", "impl MinidumpMemoryInfo")
+prot_masks = {}
+for which in ("readable", "writable", "executable"):
+    b = norm(fn_body(mi_impl, r"pub fn is_%s\(&self\) -> bool\s*\{" % which, "MinidumpMemoryInfo::is_" + which))
+    mm = re.fullmatch(r"self\.protection\.intersects\( ?((?:\|? ?md::MemoryProtection::\w+ ?)+),? ?\)", b)
+    if not mm:
+        die("MinidumpMemoryInfo::is_%s: not `self.protection.intersects(FLAG | ..)`: %s" % (which, b))
+    mask = 0
+    for f in re.findall(r"md::MemoryProtection::(\w+)", mm.group(1)):
+        if f not in prot_bits:
+            die("MinidumpMemoryInfo::is_%s: unknown flag %s" % (which, f))
+        mask |= prot_bits[f]
+    prot_masks[which] = mask
+if "protection: md::MemoryProtection::from_bits_truncate(raw.protection)," not in norm(mdrs):
+    die("MinidumpMemoryInfo: protection is no longer MemoryProtection::from_bits_truncate(raw.protection)")
+all_prot = 0
+for v in prot_bits.values():
+    all_prot |= v
+
 # ------------------------------------------------------------------ emit
 L = []
 L.append("(* GENERATED by translate/c19_src.py from minidump-processor/src/{processor,process_state}.rs and minidump/src/minidump.rs — do not edit *)")
@@ -771,6 +796,13 @@ L.append("Definition G_IMPLICIT_PUSHCALL_OFF : Z := %d." % imp_sets[PUSHCALL])
 L.append("Definition G_IMPLICIT_POPRET_OFF : Z := %d." % imp_sets[POPRET])
 L.append("Definition g_implicit_null (address : Z) : bool := %s." % imp_null)
 L.append("Definition g_ip_null (address : Z) : bool := %s." % ip_null)
+L.append("")
+L.append("(* MinidumpMemoryInfo::is_readable / is_writable / is_executable: protection.intersects(mask), protection = from_bits_truncate(raw.protection)")
+L.append("   (G_PROT_KNOWN = all defined MemoryProtection bits; every mask lies inside it, so truncation does not matter) *)")
+L.append("Definition G_PROT_R_MASK : Z := %d." % prot_masks["readable"])
+L.append("Definition G_PROT_W_MASK : Z := %d." % prot_masks["writable"])
+L.append("Definition G_PROT_X_MASK : Z := %d." % prot_masks["executable"])
+L.append("Definition G_PROT_KNOWN : Z := %d." % all_prot)
 out = "\n".join(L) + "\n"
 os.makedirs(outdir, exist_ok=True)
 pth = os.path.join(outdir, "C19Src.v")
